@@ -62,6 +62,10 @@ def cases(tier, seed):
         # the exact (Cholesky) treatment of K_ZZ asked for by fast_computations(log_prob=False), with more inducing points than max_cholesky_size
         for strat, dist in itertools.product(["VariationalStrategy", "UnwhitenedVariationalStrategy"], DISTS[:2]):
             yield {"kind": "svgp", "strategy": strat, "dist": dist, "zbatch": [], "pbatch": [], "dbatch": [], "mn": [7, 5], "env": "logprob_off_above_cholesky_size", "seed": rnd.randrange(10**6)}
+        # the whole cell (several evaluation-mode calls in a row, refilled buffers, parameter updates) under trace_mode /
+        # with the debug checks off: another code path for the same quantities, call after call
+        for strat, dist, env in itertools.product(["VariationalStrategy", "UnwhitenedVariationalStrategy"], DISTS[:2], ["trace_mode", "debug_off"]):
+            yield {"kind": "svgp", "strategy": strat, "dist": dist, "zbatch": [], "pbatch": rnd.choice([[], [2]]), "dbatch": [], "env_all": env, "seed": rnd.randrange(10**6)}
         for dist, bb, M in itertools.product(DISTS, [[], [2]], [1, 4]):
             yield {"kind": "init_from_prior", "dist": dist, "batch": bb, "M": M, "seed": rnd.randrange(10**6)}
         for dist, dim in itertools.product(DISTS[:2], [-1]):
@@ -282,6 +286,16 @@ def _qu_unwhitened(case_strat, dist, vs, Kzz, mz, jit):
 
 
 def _svgp(case, ctx, g):
+    from gpytorch import settings as S
+
+    if case.get("env_all"):
+        with {"trace_mode": S.trace_mode, "debug_off": lambda: S.debug(False)}[case["env_all"]]():
+            out1 = _svgp_cell(case, ctx, g)
+            return out1
+    return _svgp_cell(case, ctx, g)
+
+
+def _svgp_cell(case, ctx, g):
     import torch
 
     import gpytorch
